@@ -318,6 +318,12 @@ def annotate_loops(body, loops, unit):
         if kind == 'for':
             m = re.match(r'for\s+(.*?)\s+in\s+(.*)$', head, re.S)
             pat, expr = m.group(1), m.group(2).rstrip()
+            if l.get('pat'):
+                # R20b: `&x` sub-patterns (ref patterns are not supported by Verus) are bound by value: the sidecar gives the pattern without `&`, which must be
+                # the source pattern with the `&` removed - anything else is a lost anchor
+                if re.sub(r'&\s*', '', norm_ws(pat)) != norm_ws(l['pat']):
+                    raise LostAnchor('loop pattern of %s changed: %r (contract written for %r)' % (unit, pat, l['pat']))
+                pat = l['pat']
             if l.get('mut_index'):
                 # R25: `for PAT in &mut VEC { BODY }` -> index loop with `let PAT = &mut VEC[i];` (Verus has no usable IterMut spec);
                 # the body is unchanged; it must not contain break/continue
